@@ -329,6 +329,7 @@ theorem invReg_step {c : Conn α} (hw : Inv c) (h : InvReg c) (l : Label α) : I
   | get hdr ver budget => exact invReg_get hw h _ _ _
   | sclose req retry => exact invReg_sclose hw h _ _
   | «end» => exact invReg_frame (c' := { c with isDone := true }) h (Or.inr rfl) rfl (StrKeep.refl _) (strKeepF_refl _)
+  | evict sid n => exact invReg_frame (c' := evict c sid n) h (Or.inl rfl) rfl (StrKeep.refl _) (strKeepF_refl _)
 
 theorem invReg_run (cfg : Cfg) (ls : List (Label α)) : InvReg (run (init cfg) ls) := by
   suffices ∀ c : Conn α, Inv c → InvReg c → InvReg (run c ls) from this _ (inv_init cfg) (invReg_init cfg)
@@ -538,6 +539,7 @@ theorem answered_step {c : Conn α} (hw : Inv c) (h10 : Inv10 c) (h : Answered c
   | get hdr ver budget => exact answered_get hw h _ _ _
   | sclose req retry => exact answered_sclose hw h _ _
   | «end» => exact answered_frame (c' := { c with isDone := true }) h rfl (strKeepF_refl _) (LogLE.refl _)
+  | evict sid n => exact answered_frame (c' := evict c sid n) h rfl (strKeepF_refl _) (LogLE.refl _)
 
 theorem answered_run (cfg : Cfg) (hst : cfg.hasStore = true) (ls : List (Label α)) (hsc : InScopeRun (init cfg) ls) :
     Answered (run (init cfg) ls) := by
